@@ -199,6 +199,17 @@ def selftest():
         hit = 'is violated' in out
         log('selftest: BlugeCore with TruncateOnPersist=FALSE -> %s' % ('counterexample found (' + (re.search(r'Invariant (\w+) is violated', out).group(1) if hit and re.search(r'Invariant (\w+) is violated', out) else 'property') + ')' if hit else 'NO counterexample'))
         ok &= hit
+        # (1a') BlugeCore with the unrepaired persist-swap wait: Close between hand-over and application
+        wd = os.path.join(sd, 'mc2')
+        os.makedirs(wd)
+        for f in glob.glob(os.path.join(SPEC, '*.tla')):
+            shutil.copy(f, wd)
+        cfg = open(os.path.join(SPEC, 'MC_close_q.cfg')).read().replace('WaitForSwap = TRUE', 'WaitForSwap = FALSE')
+        open(os.path.join(wd, 'x.cfg'), 'w').write(cfg)
+        rc, out = vlib.tlc_run(wd, 'MC.tla', 'x.cfg', workers=8, timeout=600)
+        hit = 'Invariant C04_NoUseAfterClose is violated' in out
+        log('selftest: BlugeCore with WaitForSwap=FALSE -> %s' % ('counterexample to C04_NoUseAfterClose' if hit else 'NO counterexample'))
+        ok &= hit
         # (1b) DirFS without truncate / without sync
         for const, want in (('Truncate = TRUE', 'ExactOnSuccess'), ('SyncOnPersist = TRUE', 'SyncedOnSuccess')):
             wd = os.path.join(sd, 'mc-' + want)
